@@ -85,6 +85,9 @@ Section Glue.
       end
     end.
 
+  (* the slice is displayed as its elements joined by ',' *)
+  Definition join_comma (l : list str) : str := fold_right (fun s acc => s ++ [44] ++ acc) [] l.
+
   (* `matches.iter().skip(1)`: group 0 (the whole match) is not an argument *)
   Definition run_glue (sg : sigk) (matches : list cap) : outcome :=
     let it := tl matches in
@@ -92,10 +95,17 @@ Section Glue.
     | SArgs args => extract_args 0 args it
     | SSlice ty sf sl =>
       match extract_slice (length it) 0 ty it with
-      | ORan l => ORan ((if sf then [lit "<step>"] else []) ++ [concat_with l] ++ (if sl then [lit "<step>"] else []))
+      | ORan l => ORan ((if sf then [lit "<step>"] else []) ++ [join_comma l] ++ (if sl then [lit "<step>"] else []))
       | o => o
       end
     | SNone with_step => ORan (if with_step then [lit "<step>"] else [])
-    end
-  where "'concat_with' l" := (fold_right (fun s acc => s ++ [44] ++ acc) [] l) (only parsing).
+    end.
 End Glue.
+
+Definition outcome_eqb (a b : outcome) : bool :=
+  match a, b with
+  | ORan x, ORan y => list_eqb str_eqb x y
+  | ONotFound i, ONotFound j => Nat.eqb i j
+  | OParseFailed i, OParseFailed j => Nat.eqb i j
+  | _, _ => false
+  end.
